@@ -1,6 +1,7 @@
 import H2.Client.Recv
 import H2.Proofs.HpackEnc
 import H2.Proofs.ClientRunCount
+import H2.Proofs.ClientHdrFrames
 /-!
 # C18 (client half) — SETTINGS are acknowledged one for one and the server's limits persist
 
@@ -10,8 +11,9 @@ F09c: every SETTINGS_HEADER_TABLE_SIZE value reaches the write loop's encoder as
 request, then last" (`noted_*`, `applied_*`, `dip_announced`), so a size that dips and comes back is announced.
 F35 is repaired as well: the SETTINGS frame of the handshake carries ENABLE_PUSH=0 (`advertises_push_off`), and the
 zeros of the client's never-reset `Settings` still stay off the wire (`advertises_nothing_else`).
-Not met and recorded as known: a request's header block is one HEADERS frame whatever the server's MAX_FRAME_SIZE
-(F33, shared with the server half).
+F33 (shared with the server half) is repaired too: a request's header block longer than the server's MAX_FRAME_SIZE goes
+out as HEADERS + CONTINUATION frames of at most that size (`header_frames_within_server_max_frame_size`,
+`request_block_frames_add_up`).
 -/
 namespace H2.Props.C18c
 
@@ -96,6 +98,74 @@ theorem concurrent_streams_obeyed (c : Conn) (r : ReqSpec) :
 theorem frame_size_recorded (c : Conn) (v : Nat) :
     (applyPairs c [(Gen.c_MaxFrameSize, v)]).maxFrameSize = v := by
   simp [applyPairs, Gen.c_MaxFrameSize, Gen.c_HeaderTableSize, Gen.c_MaxConcurrentStreams]
+
+/-! ## MAX_FRAME_SIZE obeyed by header blocks (finding F33, repaired)
+
+`writeRequest` queues ONE HEADERS frame per request; `writeHeaderBlock` cuts it where it is written, under `bwLck`, at
+`frameStep` — the value `writeData` uses. `wireFrames` is what reaches the wire (and what the driver prints). -/
+
+/-- the step header blocks and DATA are cut at is the server's SETTINGS_MAX_FRAME_SIZE: the value recorded by
+`applyPairs` (`frame_size_recorded`) whenever it is one a SETTINGS frame can carry (2^14 … 2^24-1; anything else is
+refused by the frame layer), the size every peer accepts otherwise; it is never 0 -/
+theorem frame_step_is_servers (c : Conn) :
+    0 < frameStep c ∧
+    (0 < c.maxFrameSize → c.maxFrameSize ≤ Gen.c_maxFrameSize → frameStep c = c.maxFrameSize) ∧
+    (c.maxFrameSize = 0 ∨ c.maxFrameSize > Gen.c_maxFrameSize → frameStep c = 2 ^ 14) :=
+  ⟨frameStep_pos c, frameStep_is_servers c, fun h => by rw [frameStep_default c h]; rfl⟩
+
+/-- **Every HEADERS-without-END_HEADERS and every CONTINUATION frame written is at most the server's MAX_FRAME_SIZE**,
+whatever frames the step queued (`fs` without wire-only frames: what `writeRequest`, `sendPending` and the read loop
+queue, see `request_queues_no_fragments`) and whatever the encoder's state; a HEADERS frame that keeps END_HEADERS
+carries a block that fits (`whole_headers_frame_fits`). -/
+theorem header_frames_within_server_max_frame_size (c : Conn) (fs : List OutFrame) (h : NoFrag fs) :
+    ∀ n ∈ (wireFrames c fs).filterMap OutFrame.fragLen, n ≤ frameStep c := by
+  intro n hn
+  rcases wireFrames_frags c fs n hn with h1 | h1
+  · exact h1
+  · rw [h.filterMap] at h1; cases h1
+
+theorem request_queues_no_fragments (c : Conn) (r : ReqSpec) : NoFrag (writeRequest c r).2 :=
+  writeRequest_noFrag c r
+
+/-- one queued HEADERS frame on the wire: the frames `headerFrames` makes of the fragment lengths of its block -/
+theorem one_block_on_the_wire (c : Conn) (sid : Nat) (es : Bool) (fields : List (Bytes × Bytes)) :
+    wireFrames c [.headers sid es fields] =
+      headerFrames sid es fields (blockLens (frameStep c) (encodeHeaders c fields).2) := by
+  simp [wireFrames]
+
+/-- a block that fits stays the single HEADERS frame it was (END_HEADERS set) -/
+theorem whole_headers_frame_fits (c : Conn) (sid : Nat) (es : Bool) (fields : List (Bytes × Bytes))
+    (h : (encodeHeaders c fields).2 ≤ frameStep c) :
+    wireFrames c [.headers sid es fields] = [.headers sid es fields] := by
+  rw [one_block_on_the_wire, headerFrames_small _ _ _ _ _ h]
+
+/-- **The fragments of a request header block add up to the block** (client twin of
+`C18.header_block_frames_are_whole`; the client model carries block lengths, not octets): a block of `n` octets longer than
+the step goes out as a HEADERS frame without END_HEADERS carrying exactly `step` octets, END_STREAM staying on it, then at
+least one CONTINUATION frame; the payload lengths are `blockLens step n`, each at most `step`, none of the CONTINUATION
+frames empty, and their sum is `n`; END_HEADERS and the field list are on the last CONTINUATION frame (`contFrames`). -/
+theorem request_block_frames_add_up (sid : Nat) (es : Bool) (fields : List (Bytes × Bytes)) (step : Nat) (hs : 0 < step)
+    (n : Nat) (h : step < n) :
+    (∃ l rest, blockLens step n = step :: l :: rest ∧ (∀ x ∈ l :: rest, 0 < x) ∧
+      headerFrames sid es fields (blockLens step n) = .hfrag sid es step :: contFrames sid fields (l :: rest) ∧
+      (contFrames sid fields (l :: rest)).filterMap OutFrame.fragLen = l :: rest) ∧
+    (∀ x ∈ blockLens step n, x ≤ step) ∧ (blockLens step n).sum = n := by
+  obtain ⟨l, rest, e, hp⟩ := blockLens_big step hs n h
+  exact ⟨⟨l, rest, e, hp, by simp [e, headerFrames], fragLen_contFrames _ _ _⟩, blockLens_le step n, blockLens_sum step hs n⟩
+
+/-- END_HEADERS is on the last CONTINUATION frame and on no other, the decoded fields with it -/
+theorem cont_frames_shape (sid : Nat) (fields : List (Bytes × Bytes)) (l : Nat) (rest : List Nat) :
+    contFrames sid fields (l :: rest) =
+      .cont sid rest.isEmpty l (if rest.isEmpty then fields else []) :: contFrames sid fields rest := rfl
+
+/-- non-vacuity: 40 000 octets towards a server that left MAX_FRAME_SIZE at 16384: 3 frames; towards one that announced
+32768: 2 frames; 16384 octets: the one HEADERS frame; 16385: two frames -/
+example : blockLens 16384 40000 = [16384, 16384, 7232] := by decide
+example : blockLens 32768 40000 = [32768, 7232] := by decide
+example : blockLens 16384 16384 = [16384] ∧ blockLens 16384 16385 = [16384, 1] := by decide
+example : headerFrames 1 true [([1], [2])] [16384, 16384, 7232] =
+    [.hfrag 1 true 16384, .cont 1 false 16384 [], .cont 1 true 7232 [([1], [2])]] := rfl
+example : frameStep { maxFrameSize := 32768 } = 32768 ∧ frameStep {} = 16384 ∧ frameStep { maxFrameSize := 0 } = 16384 := by decide
 
 /-! ## SETTINGS_HEADER_TABLE_SIZE: every change reaches the encoder (repair of F09c) -/
 
@@ -338,7 +408,7 @@ section FullModel
 open H2.Client
 
 /-- **Full.concurrent_streams_obeyed**: in any run (any events: requests, server octets with any SETTINGS, time-outs,
-write failures …), whenever a step writes a HEADERS frame, the number of streams open just before the step
+write failures …), whenever a step writes a frame of a header block (HEADERS whole or cut, CONTINUATION), the number of streams open just before the step
 (`openStreams`) is below the `maxStreams` the connection holds at that moment (the last SETTINGS_MAX_CONCURRENT_STREAMS
 the read loop has applied); the step's event is a request and the connection has seen no GOAWAY -/
 theorem Full.concurrent_streams_obeyed (c : Conn) (h : Init c) (evs : List Event) :
@@ -368,13 +438,25 @@ theorem Full.waiting_streams_below_limit (c : Conn) (h : Init c) (pre : List Eve
   have h2 := Full.counter_covers_table c h pre
   omega
 
-/-- **Full.only_requests_open_streams**: a step that is not a request admitted by `CanOpenStream` writes no HEADERS and
-leaves `nextID` alone; one that is moves `nextID` up by 2 and the HEADERS it writes is its first frame, on the old
-`nextID`, the only HEADERS of the step -/
+/-- **Full.limit_before_every_stream_opening_frame**: the same over "frames that open a stream" — a HEADERS frame with
+END_HEADERS (`.headers`) or without (`.hfrag`, the first frame of a block longer than the server's MAX_FRAME_SIZE): whenever
+a step writes one, `openStreams < maxStreams` held just before, and the streams still waiting are fewer than `maxStreams` -/
+theorem Full.limit_before_every_stream_opening_frame (c : Conn) (h : Init c) (pre : List Event) (e : Event)
+    (hw : opensStream (step (run c pre).1 e).2 = true) :
+    (run c pre).1.openStreams < ((run c pre).1.maxStreams : Int) ∧
+    (run c pre).1.reqQueued.length < (run c pre).1.maxStreams :=
+  ⟨Full.concurrent_streams_obeyed_at c h pre e (opensStream_writes hw),
+   Full.waiting_streams_below_limit c h pre e (opensStream_writes hw)⟩
+
+/-- **Full.only_requests_open_streams**: a step that is not a request admitted by `CanOpenStream` writes no frame of a
+header block (HEADERS whole or cut, CONTINUATION) and leaves `nextID` alone; one that is moves `nextID` up by 2 and what it
+writes begins with the frames of ONE header block on the old `nextID` (`headerFrames`: a HEADERS frame, or a HEADERS frame
+without END_HEADERS followed at once by its CONTINUATION frames); nothing else written belongs to a header block -/
 theorem Full.only_requests_open_streams (c : Conn) (h : Init c) (pre : List Event) (e : Event) :
     ((step (run c pre).1 e).1.nextID = (run c pre).1.nextID ∧ writesHeaders (step (run c pre).1 e).2 = false) ∨
     (∃ r, e = .req r ∧ canOpenStream (run c pre).1 = true ∧ (step (run c pre).1 e).1.nextID = (run c pre).1.nextID + 2 ∧
-      ∀ fs, (step (run c pre).1 e).2 = .frames fs → ∃ rest, fs = wrHeaders (run c pre).1 r :: rest ∧ NoHdr rest) := by
+      ∀ fs, (step (run c pre).1 e).2 = .frames fs →
+        ∃ blk rest, fs = blk ++ rest ∧ BlockOf (run c pre).1.nextID (wrEndStream r) (requestFields r) blk ∧ NoHdr rest) := by
   have hi := run_hinv (init_hinv h) pre
   rcases step_frames_spec _ hi.inv hi.outQ e with ⟨hn, hf⟩ | ⟨r, he, hc, _, hn, hf⟩
   · left
@@ -383,6 +465,14 @@ theorem Full.only_requests_open_streams (c : Conn) (h : Init c) (pre : List Even
     | frames fs => exact noHdr_any (hf fs ho)
     | _ => rfl
   · right; exact ⟨r, he, hc, hn, hf⟩
+
+/-- **Full.continuations_contiguous**: in the output of every step of every run, each CONTINUATION frame directly follows
+a HEADERS frame without END_HEADERS or a CONTINUATION frame of the same stream: nothing is written between the frames of a
+header block -/
+theorem Full.continuations_contiguous (c : Conn) (h : Init c) (pre : List Event) (e : Event) (fs : List OutFrame)
+    (ho : (step (run c pre).1 e).2 = .frames fs) : contAfter none fs = true :=
+  let hi := run_hinv (init_hinv h) pre
+  step_contiguous _ hi.inv hi.outQ e fs ho
 
 /-! ### non-vacuity: SETTINGS_MAX_CONCURRENT_STREAMS = 1, two requests -/
 
@@ -400,6 +490,26 @@ example : (run {} fullRun).2.map writesHeaders = [false, true, false, false] ∧
     (run {} (fullRun.take 1)).1.maxStreams = 1 ∧ (run {} (fullRun.take 1)).1.openStreams = 0 ∧
     (run {} (fullRun.take 2)).1.openStreams = 1 ∧
     (getReq (run {} (fullRun.take 3)).1 "b").map (·.errBuf) = some (some .noStreams) := by decide +kernel
+
+/-- kind, stream, fragment length of the frames of an output: 1 HEADERS, 2 HEADERS without END_HEADERS, 3 CONTINUATION -/
+def fullKinds : StepOut → List (Nat × Nat × Nat)
+  | .frames fs => fs.map fun f => match f with
+    | .headers sid _ _ => (1, sid, 0) | .hfrag sid _ l => (2, sid, l) | .cont sid _ l _ => (3, sid, l) | _ => (0, 0, 0)
+  | _ => []
+
+/-- a connection whose server allows frames of 4 octets only (`Init` says nothing about MAX_FRAME_SIZE): every header
+block is cut -/
+def fullTiny : Conn := { maxFrameSize := 4 }
+
+example : Init fullTiny := by constructor <;> rfl
+
+/-- two requests: blocks of 9 and 5 octets go out as HEADERS(4) + CONTINUATION(4) + CONTINUATION(1) on stream 1 and
+HEADERS(4) + CONTINUATION(1) on stream 3; both outputs open a stream and their CONTINUATIONs are contiguous -/
+example : (run fullTiny [.req (fullReq "a"), .req (fullReq "b")]).2.map fullKinds =
+      [[(2, 1, 4), (3, 1, 4), (3, 1, 1)], [(2, 3, 4), (3, 3, 1)]] ∧
+    (run fullTiny [.req (fullReq "a"), .req (fullReq "b")]).2.map opensStream = [true, true] ∧
+    (run fullTiny [.req (fullReq "a"), .req (fullReq "b")]).2.map
+      (fun o => match o with | .frames fs => contAfter none fs | _ => true) = [true, true] := by decide +kernel
 
 end FullModel
 
